@@ -180,8 +180,8 @@ pub fn inputs_for(s: &Subject, seed: u64, quick: bool) -> Vec<Input> {
     let shape = e.ops.shape();
     let mut rng = Rng::derive(seed, &format!("c06/{}", s.label));
     let mut out: Vec<Input> = vec![];
-    let nvals = if quick { 3 } else { 10 };
-    let per_mark = if quick { 4 } else { 40 };
+    let nvals = if slow_build() { 1 } else if quick { 3 } else { 10 };
+    let per_mark = if slow_build() { 3 } else if quick { 4 } else { 40 };
     let mut bases = 0;
     let mut tries = 0;
     while bases < nvals && tries < nvals * 3 {
@@ -379,10 +379,10 @@ pub fn run(ctx: &mut Ctx, reg: &Registry) {
     }
     let stride = ctx.t(2, 1);
     for s in subs.iter() {
-        if !ctx.mine(s.index) || !ctx.wants_type(&s.label) {
+        if !ctx.mine(s.index) || !ctx.wants_type(&s.label) || !slow_keep(s) {
             continue;
         }
-        if ctx.type_filter.is_none() && (s.index / ctx.nshards) % stride != (ctx.seed as usize) % stride {
+        if ctx.type_filter.is_none() && !slow_build() && (s.index / ctx.nshards) % stride != (ctx.seed as usize) % stride {
             continue;
         }
         ctx.count("types");
@@ -409,7 +409,10 @@ fn run_children(ctx: &mut Ctx, s: &Subject) {
         let _ = std::fs::remove_file(&report);
         // 6 GiB of address space: a declared absurd length fails to allocate instead of thrashing
         let cmd = format!(
-            "ulimit -v 6291456; exec \"{}\" C06 --seed {} --tier {} --out \"{}\" --build {}",
+            "{}exec \"{}\" C06 --seed {} --tier {} --out \"{}\" --build {}",
+            // AddressSanitizer reserves terabytes of shadow address space: no address-space limit there
+            // (its own max_allocation_size_mb / allocator_may_return_null options bound allocations)
+            if std::env::var("VH_SANITIZER").is_ok() { "" } else { "ulimit -v 6291456; " },
             exe.display(),
             ctx.seed,
             if ctx.quick() { "quick" } else { "thorough" },
@@ -496,7 +499,7 @@ fn run_children(ctx: &mut Ctx, s: &Subject) {
         // inputs before the culprit were judged by the dead child but its report is lost: re-run them is
         // not needed for the verdict on the culprit; the remaining inputs are run by the next child
         ctx.eval();
-        let oom = stderr.contains("memory allocation of") || stderr.contains("capacity overflow");
+        let oom = stderr.contains("memory allocation of") || stderr.contains("capacity overflow") || stderr.contains("AddressSanitizer: requested allocation size") || stderr.contains("AddressSanitizer: allocation-size-too-big") || stderr.contains("AddressSanitizer: out of memory");
         if hung {
             if let Some(inp) = inputs.get(culprit) {
                 ctx.violation(
@@ -517,8 +520,12 @@ fn run_children(ctx: &mut Ctx, s: &Subject) {
         } else if let Some(inp) = inputs.get(culprit) {
             use std::os::unix::process::ExitStatusExt;
             let sig = out.status.signal();
+            let died_sig = match stderr.find("ERROR: AddressSanitizer: ") {
+                Some(i) => format!("C06:asan:{}", stderr[i + 25..].split_whitespace().next().unwrap_or("report")),
+                None => "C06:process-died".to_string(),
+            };
             ctx.violation(
-                "C06:process-died",
+                &died_sig,
                 &s.label,
                 J::obj(vec![
                     ("type", J::s(s.label.clone())),
@@ -560,7 +567,8 @@ fn rerun_range(ctx: &mut Ctx, s: &Subject, from: usize, to: usize) {
     let report = format!("{}/vh_c06_{}_{}_r.json", dir, std::process::id(), s.index);
     let _ = std::fs::remove_file(&report);
     let cmd = format!(
-        "ulimit -v 6291456; exec \"{}\" C06 --seed {} --tier {} --out \"{}\" --build {}",
+        "{}exec \"{}\" C06 --seed {} --tier {} --out \"{}\" --build {}",
+        if std::env::var("VH_SANITIZER").is_ok() { "" } else { "ulimit -v 6291456; " },
         exe.display(),
         ctx.seed,
         if ctx.quick() { "quick" } else { "thorough" },
